@@ -34,22 +34,22 @@ const MAX_DRAWS: usize = 6;
 
 /// Insertion strings the table offers between `prev` and `next` (None = word boundary).
 /// context-full: every context over CTX_CHARS and the boundaries; at the word start only "x", at
-/// the word end only "yz" (a multi-character insertion), otherwise both — so a provider that
+/// the word end only "ye\u{301}" (a multi-character insertion), otherwise both — so a provider that
 /// confuses the boundary contexts yields a string that is not allowed there.
 /// context-edge: only the contexts that involve a word boundary.
 fn insert_strings(provider: usize, prev: Option<&str>, next: Option<&str>) -> Option<&'static [&'static str]> {
     if provider == 2 {
-        return Some(&["x", "yz"]);
+        return Some(&["x", "ye\u{301}"]);
     }
     let known = |c: Option<&str>| c.map(|c| CTX_CHARS.contains(&c)).unwrap_or(true);
     if !known(prev) || !known(next) {
         return None;
     }
     match (prev, next) {
-        (None, None) => Some(&["x", "yz"]),
+        (None, None) => Some(&["x", "ye\u{301}"]),
         (None, Some(_)) => Some(&["x"]),
-        (Some(_), None) => Some(&["yz"]),
-        (Some(_), Some(_)) if provider == 0 => Some(&["x", "yz"]),
+        (Some(_), None) => Some(&["ye\u{301}"]),
+        (Some(_), Some(_)) if provider == 0 => Some(&["x", "ye\u{301}"]),
         _ => None,
     }
 }
@@ -58,17 +58,17 @@ fn insert_strings(provider: usize, prev: Option<&str>, next: Option<&str>) -> Op
 /// replacement string.
 fn replace_strings(provider: usize, prev: Option<&str>, cur: &str, next: Option<&str>) -> Option<&'static [&'static str]> {
     if provider == 2 {
-        return Some(&["x", "", "yz"]);
+        return Some(&["x", "", "ye\u{301}"]);
     }
     let known = |c: Option<&str>| c.map(|c| CTX_CHARS.contains(&c)).unwrap_or(true);
     if !known(prev) || !known(next) || !CTX_CHARS.contains(&cur) {
         return None;
     }
     match (prev, next) {
-        (None, None) => Some(&["x", "", "yz"]),
+        (None, None) => Some(&["x", "", "ye\u{301}"]),
         (None, Some(_)) => Some(&["x", ""]),
-        (Some(_), None) => Some(&["", "yz"]),
-        (Some(_), Some(_)) if provider == 0 => Some(&["x", "", "yz"]),
+        (Some(_), None) => Some(&["", "ye\u{301}"]),
+        (Some(_), Some(_)) if provider == 0 => Some(&["x", "", "ye\u{301}"]),
         _ => None,
     }
 }
@@ -147,8 +147,8 @@ fn providers() -> Providers {
     Providers {
         ins: [InsertEdits { insertions: i0 }, InsertEdits { insertions: i1 }],
         rep: [ReplaceEdits { replacements: r0 }, ReplaceEdits { replacements: r1 }],
-        ins_mock: Always(edits(&["x", "yz"])),
-        rep_mock: Always(edits(&["x", "", "yz"])),
+        ins_mock: Always(edits(&["x", "ye\u{301}"])),
+        rep_mock: Always(edits(&["x", "", "ye\u{301}"])),
     }
 }
 
@@ -446,9 +446,9 @@ fn main() {
     run.bounds.insert(
         "providers".into(),
         json!({
-            "context-full": "real InsertEdits/ReplaceEdits; every context over {<bow>,<eow>,a,b,ä,e,U+0301,e+U+0301}; insertions x | yz (only x after <bow>, only yz before <eow>); replacements x | \"\" | yz (no yz after <bow>, no x before <eow>); can_delete refuses ä; can_swap refuses equal neighbours",
+            "context-full": "real InsertEdits/ReplaceEdits; every context over {<bow>,<eow>,a,b,ä,e,U+0301,e+U+0301}; insertions x | ye+U+0301 (only x after <bow>, only the long one before <eow>); replacements x | \"\" | ye+U+0301 (not the long one after <bow>, no x before <eow>); can_delete refuses ä; can_swap refuses equal neighbours",
             "context-edge": "as context-full but only the contexts with <bow> or <eow>",
-            "mock-always": "always-matching providers (x | yz, x | \"\" | yz), can_delete / can_swap always true",
+            "mock-always": "always-matching providers (x | ye+U+0301, x | \"\" | ye+U+0301), can_delete / can_swap always true",
         }),
     );
     run.bounds.insert("full_delete".into(), json!("false and true (true only where delete is enabled)"));
